@@ -3,30 +3,30 @@
    no overlong forms, no surrogates D800-DFFF, nothing above U+10FFFF.  Model only, no proofs. *)
 From PahoV Require Import Base.Prelude.
 
-Definition inr (lo hi b : Z) : bool := (lo <=? b) && (b <=? hi).
-Definition cont (b : Z) : bool := inr 128 191 b.
+Definition brange (lo hi b : Z) : bool := (lo <=? b) && (b <=? hi).
+Definition cont (b : Z) : bool := brange 128 191 b.
 
 Fixpoint utf8_valid (s : list Z) : bool :=
   match s with
   | [] => true
   | b0 :: r0 =>
-    if inr 0 127 b0 then utf8_valid r0 else
+    if brange 0 127 b0 then utf8_valid r0 else
     match r0 with
     | [] => false
     | b1 :: r1 =>
-      if inr 194 223 b0 then cont b1 && utf8_valid r1 else
+      if brange 194 223 b0 then cont b1 && utf8_valid r1 else
       match r1 with
       | [] => false
       | b2 :: r2 =>
-        if inr 224 239 b0 then
-          (if b0 =? 224 then inr 160 191 b1 else if b0 =? 237 then inr 128 159 b1 else cont b1)
+        if brange 224 239 b0 then
+          (if b0 =? 224 then brange 160 191 b1 else if b0 =? 237 then brange 128 159 b1 else cont b1)
           && cont b2 && utf8_valid r2
         else
         match r2 with
         | [] => false
         | b3 :: r3 =>
-          if inr 240 244 b0 then
-            (if b0 =? 240 then inr 144 191 b1 else if b0 =? 244 then inr 128 143 b1 else cont b1)
+          if brange 240 244 b0 then
+            (if b0 =? 240 then brange 144 191 b1 else if b0 =? 244 then brange 128 143 b1 else cont b1)
             && cont b2 && cont b3 && utf8_valid r3
           else false
         end
